@@ -490,5 +490,24 @@ def run(prog, tier, seed):
                   # when it is checked a second time
                   T(c07.rule_pure3, prog, T(c07.effects, prog))),
         PROP, 'relied on by the CTL* procedure')
+    # the CTL classes must reject what is not CTL: that TypeError is what
+    # sends a quantified formula to the LTL tableau instead of the CTL
+    # labeller (which would not terminate / answer on it)
+
+    from . import c08
+    from ..formulas import signatures
+    from ..report import load_known
+    sigs = T(signatures, prog)
+    known8 = set(k['construct_key'] for k in load_known()
+                 if k.get('property') == 'C08')
+
+    def _one(fn):
+        rr = fn(prog, sigs)
+        rr.findings = [f for f in rr.findings if f.key not in known8]
+        return rr
+    if sigs is not None:
+        dep = dep + adopt(T.results(*[T(_one, fn) for fn in (
+            c08.rule_sort1, c08.rule_sort2, c08.rule_sort3)]), PROP,
+            'the sort discipline the CTL / LTL dispatch relies on')
     return T.results(r1, r2, r3, r4, r5) + dep, expl, assumptions, \
         T.extra()
